@@ -20,6 +20,7 @@ Fixpoint first_data (t : tree) : tnode :=
 
 Definition is_LeafT (t : tree) : bool := match t with Leaf _ => true | _ => false end.
 Definition is_CreateT (t : tree) : bool := match t with Create _ _ => true | _ => false end.
+Definition is_SubT (t : tree) : bool := match t with Sub _ _ => true | _ => false end.
 
 Fixpoint last_is_leaf (l : list tree) : bool :=
   match l with
@@ -34,7 +35,7 @@ Definition cont_ok (c : tree) : bool :=
 (** the grammar of a recorded tree (dag_recorder_inl.h:  task ::= (section|other)* end,
     section ::= (section|create|other)* wait):
     - the kind tag agrees with the shape of the node;
-    - the task created by a create_task node is not a section;
+    - what a create_task node created is a task (a section/task node that is not a section);
     - the last subgraph of an expanded section/task is a primitive interval (wait_tasks / end_task);
     - create_task nodes occur only directly inside sections;
     - a subgraph that follows another one is entered through a continuation edge
@@ -42,7 +43,7 @@ Definition cont_ok (c : tree) : bool :=
 Fixpoint wf_tree (t : tree) : bool :=
   match t with
   | Leaf d => (t_kind d <? K_section) && negb (t_kind d =? K_create)
-  | Create d c => (t_kind d =? K_create) && negb (t_kind (tdata c) =? K_section) && wf_tree c
+  | Create d c => (t_kind d =? K_create) && is_SubT c && negb (t_kind (tdata c) =? K_section) && wf_tree c
   | Sub d cs =>
       (K_section <=? t_kind d) && last_is_leaf cs
       && ((t_kind d =? K_section) || negb (existsb is_CreateT cs))
@@ -51,7 +52,7 @@ Fixpoint wf_tree (t : tree) : bool :=
   end.
 
 (** the root of a recording is a task *)
-Definition wf_root (t : tree) : bool := wf_tree t && negb (t_kind (tdata t) =? K_section).
+Definition wf_root (t : tree) : bool := wf_tree t && is_SubT t && negb (t_kind (tdata t) =? K_section).
 
 (** a node of the array that has no expanded subgraphs: a primitive interval or a collapsed
     section/task (gen_stat.c, chronological.c use the same test) *)
